@@ -2,6 +2,8 @@ package main
 
 import (
 	"fmt"
+
+	"github.com/tormoder/fit"
 )
 
 // C12 - timestamps follow the FIT time rules, including compressed headers.
@@ -19,7 +21,7 @@ func (p *propC12) ID() string     { return "C12" }
 func (p *propC12) Engine() string { return "rx" }
 func (p *propC12) Level() string  { return "exploration" }
 func (p *propC12) Rule() string {
-	return "scenario = a model-built stream for a file type that exposes time fields: explicit field-253 records, compressed-timestamp records on local types 0-3 with all 32 offsets, runs of 1-200 compressed records engineered to cross 32-second boundaries, explicit re-basing in between, invalid 0xFFFFFFFF timestamps, local timestamps before and after a reference, definitions that contain field 253 and arrive under a compressed header, unknown messages under compressed headers; both byte orders; decoded through a seeded read plan and compared record by record with the time model. " +
+	return "scenario = a model-built stream for a file type that exposes time fields: explicit field-253 records, compressed-timestamp records on local types 0-3 with all 32 offsets, runs of 1-200 compressed records engineered to cross 32-second boundaries, explicit re-basing in between, one scenario in eight as a chain of 2-3 such files through DecodeChained (each file judged by its own reference), invalid 0xFFFFFFFF timestamps, local timestamps before and after a reference, definitions that contain field 253 and arrive under a compressed header, unknown messages under compressed headers; both byte orders; decoded through a seeded read plan and compared record by record with the time model. " +
 		"key = (message, time source kind explicit|compressed|local|other-utc, rollover?, byte order); non-trivial when >= 1 compressed record followed a reference"
 }
 func (p *propC12) Assumptions() []string {
@@ -30,7 +32,7 @@ func (p *propC12) Assumptions() []string {
 	}
 }
 func (p *propC12) ProbeNames() []string {
-	return []string{"rollover taken", "offset equal to previous", "re-base between two compressed records", "local time with reference", "local time without reference", "field 253 under a compressed header", "invalid timestamp", "compressed record of a message without timestamp field", "compressed unknown message"}
+	return []string{"rollover taken", "offset equal to previous", "re-base between two compressed records", "local time with reference", "local time without reference", "field 253 under a compressed header", "invalid timestamp", "compressed record of a message without timestamp field", "compressed unknown message", "later file of a chain"}
 }
 
 func (p *propC12) Prepare(seed uint64, tier string) int {
@@ -56,7 +58,35 @@ func (p *propC12) Prepare(seed uint64, tier string) int {
 func (p *propC12) Gen(idx int) *Scenario {
 	r := NewRng(p.seed, "C12", idx)
 	h := p.hosts[idx%len(p.hosts)]
-	g := &streamGen{r: r, o: StreamOpts{FT: h.ft, Arch: (idx / len(p.hosts)) % 3}}
+	arch := (idx / len(p.hosts)) % 3
+	plan := genPlan(r, false, true)
+	sc := &Scenario{V: 1, Property: "C12", Engine: "rx", Seed: p.seed, Index: idx}
+	if idx%8 == 5 {
+		// chained family: every file of a chain has its own time reference;
+		// nothing of the previous file's clock may reach the next one
+		sc.Family = "chain"
+		n := r.Range(2, 3)
+		var ids []string
+		for i := 0; i < n; i++ {
+			hh := h
+			if i > 0 && r.Bool() {
+				hh = p.hosts[r.Intn(len(p.hosts))]
+			}
+			id := fmt.Sprintf("f%d", i)
+			sc.Media = append(sc.Media, Medium{ID: id, Records: p.genStream(r, hh, arch)})
+			ids = append(ids, id)
+		}
+		sc.Media = append(sc.Media, Medium{ID: "m0", Chain: ids})
+		sc.Tasks = []Task{{ID: 0, Call: "DecodeChained", In: "m0", Read: plan}}
+		return sc
+	}
+	sc.Media = []Medium{{ID: "m0", Records: p.genStream(r, h, arch)}}
+	sc.Tasks = []Task{{ID: 0, Call: "Decode", In: "m0", Read: plan}}
+	return sc
+}
+
+func (p *propC12) genStream(r *Rng, h ftMesg, arch int) *RecStream {
+	g := &streamGen{r: r, o: StreamOpts{FT: h.ft, Arch: arch}}
 	fl := byte(4 + r.Intn(12))
 	g.emitDef(&DefOp{Local: fl, Arch: g.arch(), Global: 0, Fields: [][3]int{{0, 1, 0}}})
 	g.emitData(fl, false, 0, []byte{h.ft})
@@ -203,28 +233,44 @@ func (p *propC12) Gen(idx int) *Scenario {
 			}
 		}
 	}
-	rs := &RecStream{Header: HeaderSpec{Size: 12 + 2*r.Intn(2), Proto: 0x20, Profile: 2115, HCRC: "ok"}, Ops: g.ops}
-	return &Scenario{V: 1, Property: "C12", Engine: "rx", Seed: p.seed, Index: idx,
-		Media: []Medium{{ID: "m0", Records: rs}},
-		Tasks: []Task{{ID: 0, Call: "Decode", In: "m0", Read: genPlan(r, false, true)}}}
+	return &RecStream{Header: HeaderSpec{Size: 12 + 2*r.Intn(2), Proto: 0x20, Profile: 2115, HCRC: "ok"}, Ops: g.ops}
 }
 
 func (p *propC12) Check(sc *Scenario, st *Stats) []Violation {
-	var vs []Violation
-	if len(sc.Media) == 0 || sc.Media[0].Records == nil || len(sc.Tasks) == 0 {
+	if len(sc.Media) == 0 || len(sc.Tasks) == 0 {
 		return nil
 	}
-	rs := sc.Media[0].Records
-	if !streamSane(rs.Ops) {
+	// the streams of the scenario: one, or the members of a chain
+	var streams []*RecStream
+	last := &sc.Media[len(sc.Media)-1]
+	if len(last.Chain) > 0 {
+		for _, id := range last.Chain {
+			m := sc.medium(id)
+			if m == nil || m.Records == nil {
+				return nil
+			}
+			streams = append(streams, m.Records)
+		}
+	} else if sc.Media[0].Records != nil {
+		streams = []*RecStream{sc.Media[0].Records}
+	} else {
 		return nil
 	}
-	ft, ok := fileTypeOfOps(rs.Ops)
-	if !ok || !isSupportedFileType(ft) {
-		return nil
-	}
-	mo := interpret(rs.Ops)
-	if mo.ErrOp >= 0 {
-		return nil
+	var fts []byte
+	var mos []*ModelOut
+	for _, rs := range streams {
+		if !streamSane(rs.Ops) {
+			return nil
+		}
+		ft, ok := fileTypeOfOps(rs.Ops)
+		if !ok || !isSupportedFileType(ft) {
+			return nil
+		}
+		mo := interpret(rs.Ops)
+		if mo.ErrOp >= 0 {
+			return nil
+		}
+		fts, mos = append(fts, ft), append(mos, mo)
 	}
 	r := runTask(&sc.Tasks[0], sc.buildMedia(), nil, nil)
 	st.Observe(r)
@@ -232,8 +278,32 @@ func (p *propC12) Check(sc *Scenario, st *Stats) []Violation {
 		return []Violation{{Property: "C12", Class: "C12/panic", Detail: r.Panic}}
 	}
 	if r.ErrClass != "nil" {
-		return []Violation{{Property: "C12", Class: "C12/rejects-wellformed", Detail: "Decode failed: " + r.Err}}
+		return []Violation{{Property: "C12", Class: "C12/rejects-wellformed", Detail: sc.Tasks[0].Call + " failed: " + r.Err}}
 	}
+	files := r.files
+	if sc.Tasks[0].Call != "DecodeChained" {
+		files = []*fit.File{r.file}
+	}
+	if len(files) != len(streams) {
+		return []Violation{{Property: "C12", Class: "C12/chain-length", Detail: fmt.Sprintf("DecodeChained returned %d files for a chain of %d", len(files), len(streams))}}
+	}
+	var vs []Violation
+	seen := map[string]bool{}
+	for i, rs := range streams {
+		st.ProbeIf(i > 0, "later file of a chain")
+		for _, v := range p.checkStream(rs, files[i], fts[i], mos[i], i, st) {
+			if seen[v.Class] || len(vs) >= 4 {
+				continue
+			}
+			seen[v.Class] = true
+			vs = append(vs, v)
+		}
+	}
+	return vs
+}
+
+func (p *propC12) checkStream(rs *RecStream, file *fit.File, ft byte, mo *ModelOut, pos int, st *Stats) []Violation {
+	var vs []Violation
 	// probes: replay the time rule over the ops
 	var defs [16]*DefOp
 	var ref uint32
@@ -305,15 +375,19 @@ func (p *propC12) Check(sc *Scenario, st *Stats) []Violation {
 	if nontrivial {
 		st.Nontrivial++
 	}
-	diffs := compareFile(r.file, ft, mo.Msgs, compareOpts{skipAccum: true}, st)
+	diffs := compareFile(file, ft, mo.Msgs, compareOpts{skipAccum: true}, st)
 	seen := map[string]bool{}
+	where := ""
+	if pos > 0 {
+		where = fmt.Sprintf(", file %d of the chain", pos+1)
+	}
 	for _, d := range diffs {
 		cls := "C12/" + d.Shape
 		if seen[cls] {
 			continue
 		}
 		seen[cls] = true
-		vs = append(vs, Violation{Property: "C12", Class: cls, Detail: fmt.Sprintf("%s (message %s)", d.String(), prof.MesgName(d.Global))})
+		vs = append(vs, Violation{Property: "C12", Class: cls, Detail: fmt.Sprintf("%s (message %s%s)", d.String(), prof.MesgName(d.Global), where)})
 		if len(vs) >= 4 {
 			break
 		}
